@@ -1,6 +1,6 @@
 """Thorough tier: engine self-validation (DESIGN 3.6).
 
-(i)  every seeded change this property's check is recorded to catch (seeded/RESULTS.json, written by tools/seedrun.py) is
+(i)  every seeded change written against this property that this check is recorded to catch (seeded/RESULTS.json, written by tools/seedrun.py) is
      applied to a scratch copy of the CURRENT /repo tree and the quick check is run against the copy: it must report a
      violation (exit 1);
 (ii) every behaviour-preserving variant under selftest/preserving/ is applied the same way: the check must stay silent
@@ -58,7 +58,8 @@ def run(chk, pid):
     if os.path.exists(res_p):
         res = json.load(open(res_p))
         for s, d in sorted(res.items()):
-            if pid in (d.get('caught_by') or []):
+            # only seeds written against this property: a report by another property's check is incidental, not promised
+            if pid in (d.get('caught_by') or []) and d.get('property') == pid:
                 jobs.append(('SV.1', s, os.path.join(V, 'seeded', s, 'patch.diff')))
     bdir = os.path.join(V, 'selftest', 'broken')
     if os.path.isdir(bdir):
